@@ -30,6 +30,7 @@ def located_error(
     GraphQL operation, produce a new GraphQLError aware of the location in the document
     responsible for the original Exception.
     """
+    original_nodes = nodes
     # Sometimes a non-error is thrown, wrap it as a TypeError to ensure consistency.
     if not isinstance(original_error, Exception):
         original_error = TypeError(f"Unexpected error value: {inspect(original_error)}")
@@ -58,4 +59,9 @@ def located_error(
 
     with suppress_attribute_error:
         nodes = original_error.nodes or nodes  # type: ignore
-    return GraphQLError(message, nodes, source, positions, path, original_error)
+    try:
+        return GraphQLError(message, nodes, source, positions, path, original_error)
+    except (AttributeError, TypeError):
+        # The original error carries attributes named like those of a GraphQLError,
+        # but with unrelated content; locate it by the given nodes only.
+        return GraphQLError(message, original_nodes, None, None, path, original_error)
